@@ -182,7 +182,7 @@ Section Level.
   Proof.
     destruct p; cbn [c_pattern fi_pattern]; intros H.
     - cinv H. apply cret_ok in H. destruct H as [<- _]. cbn [snd]. eapply c_cor_params; eauto.
-    - apply cret_ok in H. destruct H as [<- _]. reflexivity.
+    - destruct (is_type_name (utf8_encode name)); [|discriminate H]. apply cret_ok in H. destruct H as [<- _]. reflexivity.
     - apply cret_ok in H. destruct H as [<- _]. reflexivity.
   Qed.
 
